@@ -23,7 +23,9 @@ MCDefaultType == 2
 
 R1 == Rec(<<1>>, <<1, 47>>, {<<2>>}, {<<2, 47>>}, NoPat)         \* prefix x (synonym y): x/  (synonym y/)
 R2 == Rec(<<1, 1>>, <<1, 58>>, {}, {<<1, 3>>}, NoPat)            \* prefix xx: "x:" and a synonym with a space
+R3 == Rec(<<2, 2>>, <<1, 47, 2>>, {}, {}, NoPat)                 \* prefix yy: "x/y", NESTED under R1's canonical URI prefix
 Conv(d) == Construct(<<R1, R2>>, d, TRUE).conv
+MapConv == Construct(<<R1, R2, R3>>, <<58>>, TRUE).conv
 Convs == {Conv(<<58>>), Conv(<<47>>)}
 PathChars == {1, 2, 47, 58}
 Types == 1..8
@@ -31,7 +33,7 @@ Qs == {300, 800, 1000}
 
 Init == st \in [kind : {"resolve"}, c : Convs, path : {<<47>>}]
            \cup [kind : {"neg"}, h : {<<>>}]
-           \cup [kind : {"map"}, c : {Conv(<<58>>)}, u : {<<>>}]
+           \cup [kind : {"map"}, c : {MapConv}, u : {<<>>}]
 Next == \/ st.kind = "resolve" /\ Len(st.path) < MaxPath /\ \E ch \in PathChars : st' = [st EXCEPT !.path = Append(@, ch)]
         \/ st.kind = "neg" /\ Len(st.h) < MaxParts /\ \E t \in Types, q \in Qs : st' = [st EXCEPT !.h = Append(@, <<t, q>>)]
         \/ st.kind = "map" /\ Len(st.u) < MaxURI /\ \E ch \in {1, 2, 3, 47, 58} : st' = [st EXCEPT !.u = Append(@, ch)]
